@@ -161,7 +161,7 @@ impl<T: RealNumber> DenseMatrix<T> {
                 VERUS_ghost_iter.iter.end == self.values.len(),
                 forall|k: int| 0 <= k < i ==> self.values[k] == old(self).values[k].add_spec(scalar),
                 forall|k: int| i <= k < self.values.len() ==> self.values[k] == old(self).values[k],
-//@before self.values[i] += scalar;
+//@loopbody 1
             proof { T::ops_total(); }
 //@tail
         proof {
@@ -184,7 +184,7 @@ impl<T: RealNumber> DenseMatrix<T> {
                 VERUS_ghost_iter.iter.end == self.values.len(),
                 forall|k: int| 0 <= k < i ==> self.values[k] == old(self).values[k].sub_spec(scalar),
                 forall|k: int| i <= k < self.values.len() ==> self.values[k] == old(self).values[k],
-//@before self.values[i] -= scalar;
+//@loopbody 1
             proof { T::ops_total(); }
 //@tail
         proof {
@@ -207,7 +207,7 @@ impl<T: RealNumber> DenseMatrix<T> {
                 VERUS_ghost_iter.iter.end == self.values.len(),
                 forall|k: int| 0 <= k < i ==> self.values[k] == old(self).values[k].mul_spec(scalar),
                 forall|k: int| i <= k < self.values.len() ==> self.values[k] == old(self).values[k],
-//@before self.values[i] *= scalar;
+//@loopbody 1
             proof { T::ops_total(); }
 //@tail
         proof {
@@ -230,7 +230,7 @@ impl<T: RealNumber> DenseMatrix<T> {
                 VERUS_ghost_iter.iter.end == self.values.len(),
                 forall|k: int| 0 <= k < i ==> self.values[k] == old(self).values[k].div_spec(scalar),
                 forall|k: int| i <= k < self.values.len() ==> self.values[k] == old(self).values[k],
-//@before self.values[i] /= scalar;
+//@loopbody 1
             proof { T::ops_total(); }
 //@tail
         proof {
